@@ -3,7 +3,9 @@
 package jmespath
 
 import (
+	"encoding/json"
 	"math"
+	"strconv"
 	"strings"
 	"unicode/utf8"
 )
@@ -770,4 +772,435 @@ func specPipe2Node(l ASTNode, r ASTNode) ASTNode {
 
 func specPipe2(l ASTNode, r ASTNode, v interface{}) (interface{}, bool) {
 	return specEval(specPipe2Node(l, r), v)
+}
+
+// ---------------------------------------------------------------------------
+// Grammar (C03 C04): specParse transcribes the JMESPath ABNF, one function per
+// production, with the operator precedences of the JMESPath specification
+// (loosest to tightest: pipe, or, and, comparators, flatten, star, filter, dot,
+// not, brace, bracket, call). It knows nothing of the parser's binding-power
+// table. Every function returns (node, next token index, ok).
+
+func specPower(t tokType) int {
+	switch t {
+	case tPipe:
+		return 1
+	case tOr:
+		return 2
+	case tAnd:
+		return 3
+	case tEQ, tNE, tLT, tLTE, tGT, tGTE:
+		return 5
+	case tFlatten:
+		return 9
+	case tStar:
+		return 20
+	case tFilter:
+		return 21
+	case tDot:
+		return 40
+	case tNot:
+		return 45
+	case tLbrace:
+		return 50
+	case tLbracket:
+		return 55
+	case tLparen:
+		return 60
+	}
+	return 0
+}
+
+func specTokType(toks []token, i int) tokType {
+	if i < 0 || i >= len(toks) {
+		return tEOF
+	}
+	return toks[i].tokenType
+}
+
+func specNode0(t astNodeType) ASTNode {
+	return ASTNode{nodeType: t}
+}
+
+func specNode1(t astNodeType, a ASTNode) ASTNode {
+	return ASTNode{nodeType: t, children: []ASTNode{a}}
+}
+
+func specNode2(t astNodeType, a ASTNode, b ASTNode) ASTNode {
+	return ASTNode{nodeType: t, children: []ASTNode{a, b}}
+}
+
+// expression with minimum binding power bp: a prefix form followed by every
+// infix/postfix operator that binds tighter than bp (left-associative).
+func specExpr(toks []token, i int, bp int) (ASTNode, int, bool) {
+	left, j, ok := specNud(toks, i)
+	if !ok {
+		return ASTNode{}, 0, false
+	}
+	return specLoop(toks, j, bp, left)
+}
+
+func specLoop(toks []token, i int, bp int, left ASTNode) (ASTNode, int, bool) {
+	if i < 0 || i >= len(toks) {
+		return ASTNode{}, 0, false
+	}
+	if specPower(toks[i].tokenType) <= bp {
+		return left, i, true
+	}
+	l2, j, ok := specLed(toks, i, left)
+	if !ok || j <= i {
+		return ASTNode{}, 0, false
+	}
+	return specLoop(toks, j, bp, l2)
+}
+
+// prefix forms
+func specNud(toks []token, i int) (ASTNode, int, bool) {
+	if i < 0 || i >= len(toks) {
+		return ASTNode{}, 0, false
+	}
+	t := toks[i]
+	switch t.tokenType {
+	case tJSONLiteral:
+		var parsed interface{}
+		if err := json.Unmarshal([]byte(t.value), &parsed); err != nil {
+			return ASTNode{}, 0, false
+		}
+		return ASTNode{nodeType: ASTLiteral, value: parsed}, i + 1, true
+	case tStringLiteral:
+		return ASTNode{nodeType: ASTLiteral, value: t.value}, i + 1, true
+	case tUnquotedIdentifier:
+		return ASTNode{nodeType: ASTField, value: t.value}, i + 1, true
+	case tQuotedIdentifier:
+		if specTokType(toks, i+1) == tLparen {
+			return ASTNode{}, 0, false
+		}
+		return ASTNode{nodeType: ASTField, value: t.value}, i + 1, true
+	case tCurrent:
+		return specNode0(ASTCurrentNode), i + 1, true
+	case tNot:
+		e, j, ok := specExpr(toks, i+1, 45)
+		if !ok {
+			return ASTNode{}, 0, false
+		}
+		return specNode1(ASTNotExpression, e), j, true
+	case tLparen:
+		e, j, ok := specExpr(toks, i+1, 0)
+		if !ok || specTokType(toks, j) != tRparen {
+			return ASTNode{}, 0, false
+		}
+		return e, j + 1, true
+	case tStar:
+		r, j, ok := specProjRHS(toks, i+1, 20)
+		if !ok {
+			return ASTNode{}, 0, false
+		}
+		return specNode2(ASTValueProjection, specNode0(ASTIdentity), r), j, true
+	case tFlatten:
+		r, j, ok := specProjRHS(toks, i+1, 9)
+		if !ok {
+			return ASTNode{}, 0, false
+		}
+		return specNode2(ASTProjection, specNode1(ASTFlatten, specNode0(ASTIdentity)), r), j, true
+	case tFilter:
+		return specFilter(toks, i+1, specNode0(ASTIdentity))
+	case tLbrace:
+		return specHash(toks, i+1)
+	case tLbracket:
+		return specBracket(toks, i+1, specNode0(ASTIdentity), true)
+	}
+	return ASTNode{}, 0, false
+}
+
+// an index applied to left; a slice additionally starts a projection
+func specProjectIfSlice(toks []token, j int, left ASTNode, r ASTNode) (ASTNode, int, bool) {
+	ie := specNode2(ASTIndexExpression, left, r)
+	if r.nodeType != ASTSlice {
+		return ie, j, true
+	}
+	rhs, k, ok := specProjRHS(toks, j, 20)
+	if !ok {
+		return ASTNode{}, 0, false
+	}
+	return specNode2(ASTProjection, ie, rhs), k, true
+}
+
+// what may follow "[": index, slice, "*" "]" - and, in prefix position only, a multi-select list
+func specBracket(toks []token, i int, left ASTNode, prefix bool) (ASTNode, int, bool) {
+	t := specTokType(toks, i)
+	if t == tNumber || t == tColon {
+		r, j, ok := specIndexOrSlice(toks, i)
+		if !ok {
+			return ASTNode{}, 0, false
+		}
+		return specProjectIfSlice(toks, j, left, r)
+	}
+	if t == tStar && specTokType(toks, i+1) == tRbracket {
+		rhs, k, ok := specProjRHS(toks, i+2, 20)
+		if !ok {
+			return ASTNode{}, 0, false
+		}
+		return specNode2(ASTProjection, left, rhs), k, true
+	}
+	if prefix {
+		return specList(toks, i, nil)
+	}
+	return ASTNode{}, 0, false
+}
+
+func specIndexOrSlice(toks []token, i int) (ASTNode, int, bool) {
+	if specTokType(toks, i) == tColon || specTokType(toks, i+1) == tColon {
+		return specSlice(toks, i)
+	}
+	// a number followed by "]"
+	if i < 0 || i >= len(toks) || toks[i].tokenType != tNumber {
+		return ASTNode{}, 0, false
+	}
+	n, err := strconv.Atoi(toks[i].value)
+	if err != nil || specTokType(toks, i+1) != tRbracket {
+		return ASTNode{}, 0, false
+	}
+	return ASTNode{nodeType: ASTIndex, value: n}, i + 2, true
+}
+
+// slice = [number] ":" [number] [ ":" [number] ] "]", read left to right: slot counts the
+// colons seen so far (at most two), every slot takes at most one number. (specIndexOrSlice only
+// enters here when a colon is among the first two tokens, so at least one colon is present.)
+func specSlice(toks []token, i int) (ASTNode, int, bool) {
+	return specSliceFrom(toks, i, 0, []*int{nil, nil, nil})
+}
+
+func specSetPart(parts []*int, slot int, p *int) []*int {
+	out := []*int{parts[0], parts[1], parts[2]}
+	out[slot] = p
+	return out
+}
+
+func specSliceFrom(toks []token, i int, slot int, parts []*int) (ASTNode, int, bool) {
+	if slot < 0 || slot > 2 || i < 0 || i >= len(toks) || len(parts) != 3 {
+		return ASTNode{}, 0, false
+	}
+	t := toks[i].tokenType
+	if t == tRbracket {
+		return ASTNode{nodeType: ASTSlice, value: parts}, i + 1, true
+	}
+	if t == tColon {
+		if slot == 2 {
+			return ASTNode{}, 0, false
+		}
+		return specSliceFrom(toks, i+1, slot+1, parts)
+	}
+	if t == tNumber {
+		if parts[slot] != nil {
+			return ASTNode{}, 0, false
+		}
+		n, err := strconv.Atoi(toks[i].value)
+		if err != nil {
+			return ASTNode{}, 0, false
+		}
+		return specSliceFrom(toks, i+1, slot, specSetPart(parts, slot, &n))
+	}
+	return ASTNode{}, 0, false
+}
+
+// infix / postfix forms; toks[i] is the operator
+func specLed(toks []token, i int, left ASTNode) (ASTNode, int, bool) {
+	if i < 0 || i >= len(toks) {
+		return ASTNode{}, 0, false
+	}
+	tt := toks[i].tokenType
+	switch tt {
+	case tDot:
+		if specTokType(toks, i+1) == tStar {
+			r, j, ok := specProjRHS(toks, i+2, 40)
+			if !ok {
+				return ASTNode{}, 0, false
+			}
+			return specNode2(ASTValueProjection, left, r), j, true
+		}
+		r, j, ok := specDotRHS(toks, i+1, 40)
+		if !ok {
+			return ASTNode{}, 0, false
+		}
+		return specNode2(ASTSubexpression, left, r), j, true
+	case tPipe:
+		r, j, ok := specExpr(toks, i+1, 1)
+		if !ok {
+			return ASTNode{}, 0, false
+		}
+		return specNode2(ASTPipe, left, r), j, true
+	case tOr:
+		r, j, ok := specExpr(toks, i+1, 2)
+		if !ok {
+			return ASTNode{}, 0, false
+		}
+		return specNode2(ASTOrExpression, left, r), j, true
+	case tAnd:
+		r, j, ok := specExpr(toks, i+1, 3)
+		if !ok {
+			return ASTNode{}, 0, false
+		}
+		return specNode2(ASTAndExpression, left, r), j, true
+	case tEQ, tNE, tGT, tGTE, tLT, tLTE:
+		r, j, ok := specExpr(toks, i+1, 5)
+		if !ok {
+			return ASTNode{}, 0, false
+		}
+		return ASTNode{nodeType: ASTComparator, value: tt, children: []ASTNode{left, r}}, j, true
+	case tFlatten:
+		r, j, ok := specProjRHS(toks, i+1, 9)
+		if !ok {
+			return ASTNode{}, 0, false
+		}
+		return specNode2(ASTProjection, specNode1(ASTFlatten, left), r), j, true
+	case tFilter:
+		return specFilter(toks, i+1, left)
+	case tLbracket:
+		return specBracket(toks, i+1, left, false)
+	case tLparen:
+		// function-expression = unquoted-string "(" [ arg *( "," arg ) ] ")"
+		if left.nodeType != ASTField || specTokType(toks, i-1) != tUnquotedIdentifier {
+			return ASTNode{}, 0, false
+		}
+		if specTokType(toks, i+1) == tRparen {
+			return ASTNode{nodeType: ASTFunctionExpression, value: left.value}, i + 2, true
+		}
+		args, j, ok := specArgs(toks, i+1, nil)
+		if !ok {
+			return ASTNode{}, 0, false
+		}
+		return ASTNode{nodeType: ASTFunctionExpression, value: left.value, children: args}, j, true
+	}
+	return ASTNode{}, 0, false
+}
+
+// arg *( "," arg ) ")"
+func specArgs(toks []token, i int, acc []ASTNode) ([]ASTNode, int, bool) {
+	a, j, ok := specArg(toks, i)
+	if !ok || j <= i {
+		return nil, 0, false
+	}
+	acc2 := append(acc, a)
+	if specTokType(toks, j) == tRparen {
+		return acc2, j + 1, true
+	}
+	if specTokType(toks, j) != tComma {
+		return nil, 0, false
+	}
+	return specArgs(toks, j+1, acc2)
+}
+
+func specArg(toks []token, i int) (ASTNode, int, bool) {
+	if specTokType(toks, i) == tExpref {
+		e, j, ok := specExpr(toks, i+1, 0)
+		if !ok {
+			return ASTNode{}, 0, false
+		}
+		return specNode1(ASTExpRef, e), j, true
+	}
+	return specExpr(toks, i, 0)
+}
+
+// "[?" already consumed: expression "]" then the projection's right-hand side
+func specFilter(toks []token, i int, left ASTNode) (ASTNode, int, bool) {
+	cond, j, ok := specExpr(toks, i, 0)
+	if !ok || specTokType(toks, j) != tRbracket {
+		return ASTNode{}, 0, false
+	}
+	rhs, k, ok2 := specProjRHS(toks, j+1, 21)
+	if !ok2 {
+		return ASTNode{}, 0, false
+	}
+	return ASTNode{nodeType: ASTFilterProjection, children: []ASTNode{left, rhs, cond}}, k, true
+}
+
+// right-hand side of a projection: nothing (identity) before a token that binds looser than 10;
+// otherwise a bracket-specifier, a filter or a dotted continuation
+func specProjRHS(toks []token, i int, bp int) (ASTNode, int, bool) {
+	t := specTokType(toks, i)
+	if i < 0 || i >= len(toks) {
+		return ASTNode{}, 0, false
+	}
+	if specPower(t) < 10 {
+		return specNode0(ASTIdentity), i, true
+	}
+	if t == tLbracket {
+		// only a bracket-specifier may follow a projection directly
+		n := specTokType(toks, i+1)
+		if n == tNumber || n == tColon || (n == tStar && specTokType(toks, i+2) == tRbracket) {
+			return specExpr(toks, i, bp)
+		}
+		return ASTNode{}, 0, false
+	}
+	if t == tFilter {
+		return specExpr(toks, i, bp)
+	}
+	if t == tDot {
+		return specDotRHS(toks, i+1, bp)
+	}
+	return ASTNode{}, 0, false
+}
+
+// what may follow ".": identifier, "*", multi-select list or hash
+func specDotRHS(toks []token, i int, bp int) (ASTNode, int, bool) {
+	t := specTokType(toks, i)
+	if t == tQuotedIdentifier || t == tUnquotedIdentifier || t == tStar {
+		return specExpr(toks, i, bp)
+	}
+	if t == tLbracket {
+		return specList(toks, i+1, nil)
+	}
+	if t == tLbrace {
+		return specHash(toks, i+1)
+	}
+	return ASTNode{}, 0, false
+}
+
+// multi-select-list after "[": expression *( "," expression ) "]"
+func specList(toks []token, i int, acc []ASTNode) (ASTNode, int, bool) {
+	e, j, ok := specExpr(toks, i, 0)
+	if !ok || j <= i {
+		return ASTNode{}, 0, false
+	}
+	acc2 := append(acc, e)
+	if specTokType(toks, j) == tRbracket {
+		return ASTNode{nodeType: ASTMultiSelectList, children: acc2}, j + 1, true
+	}
+	if specTokType(toks, j) != tComma {
+		return ASTNode{}, 0, false
+	}
+	return specList(toks, j+1, acc2)
+}
+
+// multi-select-hash after "{": keyval *( "," keyval ) "}"
+func specHash(toks []token, i int) (ASTNode, int, bool) {
+	return specHashFromTok(toks, i, nil)
+}
+
+func specHashFromTok(toks []token, i int, acc []ASTNode) (ASTNode, int, bool) {
+	t := specTokType(toks, i)
+	if i < 0 || i >= len(toks) || (t != tUnquotedIdentifier && t != tQuotedIdentifier) || specTokType(toks, i+1) != tColon {
+		return ASTNode{}, 0, false
+	}
+	v, j, ok := specExpr(toks, i+2, 0)
+	if !ok || j <= i {
+		return ASTNode{}, 0, false
+	}
+	acc2 := append(acc, ASTNode{nodeType: ASTKeyValPair, value: toks[i].value, children: []ASTNode{v}})
+	if specTokType(toks, j) == tRbrace {
+		return ASTNode{nodeType: ASTMultiSelectHash, children: acc2}, j + 1, true
+	}
+	if specTokType(toks, j) != tComma {
+		return ASTNode{}, 0, false
+	}
+	return specHashFromTok(toks, j+1, acc2)
+}
+
+// specParse: a whole expression followed by the end of input
+func specParse(toks []token) (ASTNode, bool) {
+	e, j, ok := specExpr(toks, 0, 0)
+	if !ok || specTokType(toks, j) != tEOF {
+		return ASTNode{}, false
+	}
+	return e, true
 }
